@@ -88,7 +88,7 @@ class Check(AddCheck):
                     doc = gens.random_story_message(rng, sids, 700 + j, fresh)
                 else:
                     doc = gens.random_item_message(rng, sids, items, 700 + j, fresh)
-                yield {'ro': state, 'msg': to_text(doc), 'meta': {'cls': doc[3][0].tag, 'n': len(sids), 'layout': 'history'}}
+                yield {'ro': state, 'msg': to_text(doc), 'meta': {'cls': doc[3].tag, 'n': len(sids), 'layout': 'history'}}
 
     def obs(self, o):
         if 'classerr' in o:
